@@ -94,6 +94,8 @@ enum Op {
     Has(Key),
     Rem(Key),
     Len,
+    /// `m[k] op= v` through the map's Index impl (`+`, `-`, `*`); the bool says: inside the helper function `bump`
+    IUpd(Key, char, i64, bool),
 }
 
 impl Op {
@@ -107,12 +109,14 @@ impl Op {
             Op::Has(k) => format!("has {}", k.req()),
             Op::Rem(k) => format!("rem {}", k.req()),
             Op::Len => "len".into(),
+            Op::IUpd(k, o, v, _) => format!("{} {} {v}", match o { '+' => "iadd", '-' => "isub", _ => "imul" }, k.req()),
         }
     }
     fn kind(&self) -> &'static str {
         match self {
             Op::Ins(..) => "insert", Op::ISet(..) => "index-set", Op::Get(..) => "get", Op::IGet(..) => "index-get",
             Op::TryGet(..) => "try_get", Op::Has(..) => "contains", Op::Rem(..) => "remove", Op::Len => "len",
+            Op::IUpd(_, _, _, false) => "index-compound-assign", Op::IUpd(_, _, _, true) => "index-compound-assign-in-function",
         }
     }
     fn src(&self, is_set: bool) -> String {
@@ -125,6 +129,8 @@ impl Op {
             Op::Has(k) => format!("print(m.contains({}))", k.src()),
             Op::Rem(k) => format!("print(m.remove({}))", k.src()),
             Op::Len => String::new(),
+            Op::IUpd(k, o, v, false) => format!("m[{}] {o}= {v}", k.src()),
+            Op::IUpd(k, o, v, true) => format!("bump_{}(m, {}, {v})", match o { '+' => "add", '-' => "sub", _ => "mul" }, k.src()),
         }
     }
 }
@@ -138,6 +144,12 @@ fn program(dom: Dom, is_set: bool, ops: &[Op]) -> String {
         s.push_str(&format!("let m: set<{}> = set.new()\n", dom.key_type()));
     } else {
         s.push_str(&format!("let m: map<{}, int> = map.new()\n", dom.key_type()));
+    }
+    if !is_set {
+        let kt = dom.key_type();
+        for (n, o) in [("add", '+'), ("sub", '-'), ("mul", '*')] {
+            s.push_str(&format!("fn bump_{n}(t: map<{kt}, int>, k: {kt}, v: int) {{\n  t[k] {o}= v\n}}\n"));
+        }
     }
     for op in ops {
         let line = op.src(is_set);
@@ -199,7 +211,28 @@ impl Ref {
                 was.to_string()
             }
             Op::Len => String::new(),
+            Op::IUpd(k, o, v, _) => {
+                // index_get (panics when absent), then index_set = insert (with its resize check)
+                let old = match self.m.get(k) {
+                    Some(x) => *x,
+                    None => return Err(()),
+                };
+                let new = match o { '+' => old + v, '-' => old - v, _ => old * v };
+                if self.slots >= self.buckets {
+                    self.buckets = if self.buckets == 0 { 4 } else { self.buckets * 2 };
+                    self.resizes += 1;
+                }
+                self.m.insert(k.clone(), new);
+                String::new()
+            }
         })
+    }
+}
+
+fn op_key(op: &Op) -> &Key {
+    match op {
+        Op::Ins(k, _) | Op::ISet(k, _) | Op::Get(k) | Op::IGet(k) | Op::TryGet(k) | Op::Has(k) | Op::Rem(k) | Op::IUpd(k, ..) => k,
+        Op::Len => &Key::Int(0),
     }
 }
 
@@ -266,6 +299,20 @@ fn gen_history(rng: &mut Rng, dom: Dom, is_set: bool, max_ops: usize, thorough: 
                 90..=95 => if r.m.contains_key(&k) || rng.chance(1, 40) { Op::IGet(k) } else { Op::Has(k) },
                 _ => Op::Len,
             }
+        };
+        // `m[k] op= v` through the Index impl: mostly on present keys (an absent key panics and ends the program)
+        let op = if !is_set && !matches!(op, Op::Len) && rng.chance(1, 12) && (r.m.contains_key(op_key(&op)) || rng.chance(1, 30)) {
+            let k = op_key(&op).clone();
+            let old = r.m.get(&k).copied().unwrap_or(0);
+            let (o, v) = match rng.below(3) {
+                0 => ('+', rng.range(-50, 99)),
+                1 => ('-', rng.range(-50, 99)),
+                _ => ('*', rng.range(-2, 3)),
+            };
+            let (o, v) = if o == '*' && (old * v).abs() > (1 << 40) { ('+', 1) } else { (o, v) };
+            Op::IUpd(k, o, v, rng.chance(1, 3))
+        } else {
+            op
         };
         let res = r.exec(&op);
         ops.push(op);
